@@ -6,7 +6,10 @@
 //                                                              with a scratch directory some executions write Interfile output
 //   c14_lmtoproj long <out.ndjson> <runs> <len>               few long streams (10^3..10^4 records)
 //   c14_lmtoproj grad <out.ndjson> <runs> <stage>             list-mode gradient vs projection-data gradient (ray tracing, fixed point)
-//   c14_lmtoproj gradx <out.ndjson> <runs> <stage>            the same on the explicit-matrix seam (exact instances)
+//   c14_lmtoproj gradx <out.ndjson> <runs> <stage> [<cache dir>]   the same on the explicit-matrix seam (exact instances);
+//                                                              both with random event-batch sizes (in memory, and cached on disk
+//                                                              when a cache directory is given), plus Hessian times image
+//   c14_lmtoproj ecat <out.ndjson> <runs> <words>             synthetic ECAT8 32-bit words through the real CListRecordECAT8_32bit
 //   c14_lmtoproj allbatch <out.ndjson> <runs> <maxlen>        every num_segments_in_memory x num_TOF_bins_in_memory
 //
 // Trace lines of a histogramming run (one execution = Config ... End):
@@ -25,6 +28,9 @@
 #include "vh_listmode.h"
 #include "vh_explicit_matrix.h"
 #include "stir/listmode/LmToProjData.h"
+#include "stir/listmode/CListRecordECAT8_32bit.h"
+#include "stir/listmode/CListEventCylindricalScannerWithDiscreteDetectors.h"
+#include "stir/ByteOrder.h"
 #include "stir/ProjDataInMemory.h"
 #include "stir/ProjData.h"
 #include "stir/ExamInfo.h"
@@ -377,14 +383,28 @@ static void mode_hist(vh::Trace& tr, long runs, int maxlen, int stage, vh::Rng& 
 static void mode_allbatch(vh::Trace& tr, long runs, int maxlen, vh::Rng& rng) {
   for (long run = 0; run < runs; ++run) {
     Geo g = random_geo(rng, 0, true);
-    if (run % 2 == 0) { g.maxT = 5; g.tofMash = 1; g.R = 3; g.span = 1; g.maxDelta = 2; }
+    if (run % 4 < 2) { g.maxT = 5; g.tofMash = 1; g.R = 3; g.span = 1; g.maxDelta = run % 4 == 1 ? 2 : 1; g.segReduce = 0; }
     shared_ptr<Scanner> sc = vh::make_scanner(g.N, g.R, g.maxT);
     shared_ptr<ProjDataInfo> templ = make_template(sc, g);
     const int nseg = templ->get_num_segments(), ntof = templ->get_num_tof_poss();
     Settings base;
-    auto recs = random_stream(rng, g, rng.range(4, maxlen), true, false, true);
+    // odd runs: large steps between the time marks and narrow contiguous frames, so that some frames contain no
+    // time mark, are empty, or start / end exactly on a time mark - under EVERY batch size
+    const bool sparse = run % 2 == 0;
+    auto recs = random_stream(rng, g, rng.range(sparse ? 8 : 4, maxlen), true, sparse, true);
+    if (sparse) {
+      // make sure of it: the 260 ms mark ends frame [0,125) and lies beyond frame [125,250); events follow it
+      std::vector<vh::LmRec> pre{ vh::LmRec::time(100), random_event(rng, g, false), vh::LmRec::time(260), random_event(rng, g, false), random_event(rng, g, true) };
+      for (auto& r : recs) if (r.is_time()) r.ms += 260;
+      recs.insert(recs.begin(), pre.begin(), pre.end());
+    }
     base.frames = random_frames(rng, 2, last_mark(recs));
-    base.cls = "allbatch";
+    if (sparse) {
+      base.frames.clear();
+      const int n = rng.range(3, 4);
+      for (int i = 0; i < n; ++i) base.frames.push_back({ 125L * i, 125L * (i + 1) + (i == n - 1 ? 125L * rng.range(0, 4) : 0) });
+    }
+    base.cls = sparse ? "allbatch-sparse" : "allbatch";
     for (int s = 1; s <= nseg; ++s)
       for (int t = 1; t <= ntof; ++t) {
         Settings st = base; st.segIM = s; st.tofIM = t;
@@ -425,12 +445,59 @@ typedef DiscretisedDensity<3, float> Img;
 class LmObjProbe : public PoissonLogLikelihoodWithLinearModelForMeanAndListModeDataWithProjMatrixByBin<Img> {
 public:
   void set_frame_num(unsigned f) { this->current_frame_num = f; }
+  // number of events per batch when the events are re-read from the list-mode data for every computation
+  // (the class fixes it to 1000000 in set_up; a list-mode file with more prompts than that is read in several batches)
+  void set_batch_size_in_memory(unsigned long n) { this->cache_size = n; }
 };
 
 static std::vector<long long> img_fx(const Img& im, int k) {
   std::vector<long long> v;
   for (auto it = im.begin_all_const(); it != im.end_all_const(); ++it) v.push_back(vh::fx(*it, k));
   return v;
+}
+
+// how the list-mode objective function gets its events: cache = 0: default (one batch); disk: "max cache size" = cache,
+// batches cached in files my_CACHE<i>.bin under the cache path; otherwise batches of `cache` events re-read every time
+struct CacheMode { long cache = 0; bool disk = false; };
+static std::string g_cache_dir;
+
+static CacheMode random_cache(vh::Rng& rng, const std::vector<vh::LmRec>& recs) {
+  long np = 0;
+  for (auto& r : recs) np += r.kind == vh::LmRec::Prompt;
+  CacheMode c;
+  // every 4th execution: batches of 1 event cached on disk; every 4th: batches of 2 re-read from the stream
+  static long count = 0;
+  ++count;
+  if (count % 4 == 1 && !g_cache_dir.empty()) { c.cache = 1; c.disk = true; return c; }
+  if (count % 4 == 2) { c.cache = 2; c.disk = false; return c; }
+  const std::vector<long> sizes{ 0, 1, 2, 3, 5, 7, 11, np, np + 3, np > 1 ? (long)rng.range(1, (int)np) : 1, np > 3 ? np / 2 : 2 };
+  c.cache = rng.pick(sizes);
+  if (c.cache < 0) c.cache = 0;
+  c.disk = c.cache > 0 && !g_cache_dir.empty() && rng.coin();
+  return c;
+}
+
+static void apply_cache_before_set_up(LmObjProbe& o, const CacheMode& c) {
+  if (c.disk) { o.set_cache_path(g_cache_dir); o.set_cache_max_size((unsigned long)c.cache); o.set_recompute_cache(true); }
+}
+static void apply_cache_after_set_up(LmObjProbe& o, const CacheMode& c) {
+  if (!c.disk && c.cache > 0) o.set_batch_size_in_memory((unsigned long)c.cache);
+}
+static void remove_cache_files() {
+  if (g_cache_dir.empty()) return;
+  for (int i = 0; i < 400; ++i) if (std::remove((g_cache_dir + "/my_CACHE" + std::to_string(i) + ".bin").c_str()) != 0 && i > 2) break;
+}
+
+// Hessian of the log-likelihood (without penalty) times the current image, both objective functions
+template <class PD>
+static void emit_hessians(vh::Trace& tr, LmObjProbe& lmobj, PD& pdobj, const shared_ptr<Img>& image, int numSubsets, int K) {
+  shared_ptr<Img> h1(image->get_empty_copy()), h2(image->get_empty_copy());
+  for (int sub = 0; sub < numSubsets; ++sub) {
+    h1->fill(0.F); h2->fill(0.F);
+    lmobj.accumulate_sub_Hessian_times_input_without_penalty(*h1, *image, *image, sub);
+    pdobj.accumulate_sub_Hessian_times_input_without_penalty(*h2, *image, *image, sub);
+    tr.emit(vh::Json("Hess").num("subset", sub).num("k", K).arr("lm", img_fx(*h1, K)).arr("pd", img_fx(*h2, K)));
+  }
 }
 
 static void run_grad(vh::Trace& tr, vh::Rng& rng, int stage) {
@@ -451,6 +518,7 @@ static void run_grad(vh::Trace& tr, vh::Rng& rng, int stage) {
   // stream: prompts (and delayeds, which the list-mode objective ignores), frame [125, 500) ms selected by frame number
   std::vector<vh::LmRec> recs = random_stream(rng, g, rng.range(20, stage ? 120 : 60), true, false, true);
   std::vector<std::pair<long, long>> frames{ { 0, 125 }, { 125, 500 }, { 500, 1000 } };
+  const CacheMode cm = random_cache(rng, recs);
   const unsigned long dur = last_mark(recs);
   const int frame_num = dur < 125 ? rng.range(0, 1) : dur < 500 ? rng.range(0, 2) : rng.range(0, 3);    // 0: no frame definitions
   {
@@ -459,7 +527,8 @@ static void run_grad(vh::Trace& tr, vh::Rng& rng, int stage) {
     geo_fields(j, g, *templ);
     std::vector<std::vector<long long>> fr;
     if (frame_num > 0) fr.push_back({ frames[frame_num - 1].first, frames[frame_num - 1].second });
-    j.num("numSubsets", numSubsets).boolean("hasAdd", hasAdd).num("k", K).arr2("frames", fr).num("frameNum", frame_num).num("len", (long long)recs.size());
+    j.num("numSubsets", numSubsets).boolean("hasAdd", hasAdd).num("k", K).arr2("frames", fr).num("frameNum", frame_num).num("len", (long long)recs.size())
+        .num("cache", cm.cache).boolean("disk", cm.disk);
     pdi_fields(j, *templ);
     tr.emit(j);
     std::vector<std::vector<long long>> rr;
@@ -520,7 +589,9 @@ static void run_grad(vh::Trace& tr, vh::Rng& rng, int stage) {
       lmobj.frame_defs = TimeFrameDefinitions(ft);
       lmobj.set_frame_num(frame_num);
     }
+    apply_cache_before_set_up(lmobj, cm);
     if (lmobj.set_up(image) != Succeeded::yes) error("list-mode objective set_up failed");
+    apply_cache_after_set_up(lmobj, cm);
     PoissonLogLikelihoodWithLinearModelForMeanAndProjData<Img> pdobj;
     pdobj.set_proj_data_sptr(hist);
     pdobj.set_projector_pair_sptr(shared_ptr<ProjectorByBinPair>(new ProjectorByBinPairUsingProjMatrixByBin(pm2)));
@@ -545,7 +616,9 @@ static void run_grad(vh::Trace& tr, vh::Rng& rng, int stage) {
         }
         tr.emit(vh::Json("Grad").num("subset", sub).boolean("plusSens", plus != 0).num("k", K).arr("lm", img_fx(*g1, K)).arr("pd", img_fx(*g2, K)));
       }
+    emit_hessians(tr, lmobj, pdobj, image, numSubsets, 12);
   }, &msg);
+  remove_cache_files();
   vh::Json e("End");
   e.boolean("err", err);
   if (err) e.str("msg", msg);
@@ -611,6 +684,7 @@ static void run_gradx(vh::Trace& tr, vh::Rng& rng, int stage) {
     }
   std::vector<vh::LmRec> recs = random_stream(rng, g, rng.range(10, stage ? 100 : 50), true, false, true);
   std::vector<std::pair<long, long>> frames{ { 0, 125 }, { 125, 500 }, { 500, 1000 } };
+  const CacheMode cm = random_cache(rng, recs);
   const unsigned long dur = last_mark(recs);
   const int frame_num = dur < 125 ? rng.range(0, 1) : dur < 500 ? rng.range(0, 2) : rng.range(0, 3);    // 0: no frame definitions
   {
@@ -619,7 +693,8 @@ static void run_gradx(vh::Trace& tr, vh::Rng& rng, int stage) {
     geo_fields(j, g, *templ);
     std::vector<std::vector<long long>> fr;
     if (frame_num > 0) fr.push_back({ frames[frame_num - 1].first, frames[frame_num - 1].second });
-    j.num("numSubsets", numSubsets).boolean("hasAdd", hasAdd).num("k", K).arr2("frames", fr).num("frameNum", frame_num).num("len", (long long)recs.size());
+    j.num("numSubsets", numSubsets).boolean("hasAdd", hasAdd).num("k", K).arr2("frames", fr).num("frameNum", frame_num).num("len", (long long)recs.size())
+        .num("cache", cm.cache).boolean("disk", cm.disk);
     pdi_fields(j, *templ);
     j.num("nvox", (long long)vox.size()).arr("lam", lam).arr2("rows", rows);
     tr.emit(j);
@@ -661,7 +736,9 @@ static void run_gradx(vh::Trace& tr, vh::Rng& rng, int stage) {
       lmobj.frame_defs = TimeFrameDefinitions(ft);
       lmobj.set_frame_num(frame_num);
     }
+    apply_cache_before_set_up(lmobj, cm);
     if (lmobj.set_up(image) != Succeeded::yes) error("list-mode objective set_up failed");
+    apply_cache_after_set_up(lmobj, cm);
     PoissonLogLikelihoodWithLinearModelForMeanAndProjData<Img> pdobj;
     pdobj.set_proj_data_sptr(hist);
     pdobj.set_projector_pair_sptr(vh::make_explicit_projector_pair(data));
@@ -686,6 +763,72 @@ static void run_gradx(vh::Trace& tr, vh::Rng& rng, int stage) {
         }
         tr.emit(vh::Json("Grad").num("subset", sub).boolean("plusSens", plus != 0).num("k", K).arr("lm", img_fx(*g1, K)).arr("pd", img_fx(*g2, K)));
       }
+    emit_hessians(tr, lmobj, pdobj, image, numSubsets, 12);
+  }, &msg);
+  remove_cache_files();
+  vh::Json e("End");
+  e.boolean("err", err);
+  if (err) e.str("msg", msg);
+  tr.emit(e);
+}
+
+// ---------------------------------------------------------------- scanner-specific record decoder: ECAT8 32-bit (PETLINK) words
+// Synthetic raw 32-bit words are given to the real CListRecordECAT8_32bit; what it decodes is recorded.
+//   EConfig  scanner (N, R, maxT, uncompressed number of tangential positions) + the (span 1) template geometry
+//   W        hi, lo: the two 16-bit halves of the word, swap: bytes given in the other byte order;
+//            isTime, isEvent; time: ms; event: prompt, detection positions d1 r1 d2 r2 t, bin in the template (ok, seg ...)
+static void run_ecat(vh::Trace& tr, vh::Rng& rng, int nwords) {
+  // template geometry the decoded events are binned into: anything LmToProjData accepts
+  Geo g = random_geo(rng, 0);
+  while (g.N > 12 || g.R > 3) g = random_geo(rng, 0);
+  shared_ptr<Scanner> sc = vh::make_scanner(g.N, g.R, g.maxT);
+  shared_ptr<ProjDataInfo> templ = make_template(sc, g);
+  // the geometry the offsets of the words point into: the scanner's uncompressed (TOF) sinogram, which is what the
+  // record class is constructed with (it requires span 1 and takes its segment / TOF bin order from it)
+  shared_ptr<ProjDataInfo> unc = ProjDataInfo::construct_proj_data_info(sc, 1, g.R - 1, g.N / 2, sc->get_max_num_non_arccorrected_bins(), false, g.maxT > 0 ? 1 : 0);
+  {
+    vh::Json j("EConfig");
+    j.num("id", ++g_cfg_id);
+    geo_fields(j, g, *templ);
+    j.num("uNumTang", sc->get_max_num_non_arccorrected_bins());
+    tr.emit(j);
+  }
+  std::string msg;
+  bool err = vh::threw([&] {
+    ecat::CListRecordECAT8_32bit rec(unc);
+    CListRecord& r = rec;
+    const unsigned long total = (unsigned long)unc->size_all();
+    for (int w = 0; w < nwords; ++w) {
+      boost::uint32_t word;
+      const int kind = rng.range(0, 9);
+      if (kind < 7) {
+        const unsigned long off = kind == 0 ? 0 : kind == 1 ? total - 1 : (unsigned long)(rng.next() % total);
+        word = (boost::uint32_t)off | ((boost::uint32_t)rng.range(0, 1) << 30);
+      } else {
+        const boost::uint32_t t = kind == 7 ? (boost::uint32_t)rng.range(0, 70000) : (boost::uint32_t)(rng.next() % (1UL << 29));
+        const boost::uint32_t tag = kind == 9 ? (boost::uint32_t)rng.range(1, 3) : 0U;
+        word = (1U << 31) | (tag << 29) | t;
+      }
+      const bool swap = rng.range(0, 3) == 0;
+      boost::uint32_t raw = word;
+      if (swap) ByteOrder::swap_order(raw);
+      rec.init_from_data_ptr(reinterpret_cast<const char*>(&raw), 4, swap);
+      vh::Json j("W");
+      j.num("hi", word >> 16).num("lo", word & 0xFFFFU).boolean("swap", swap).boolean("isTime", r.is_time()).boolean("isEvent", r.is_event());
+      if (r.is_time()) j.num("ms", (long long)r.time().get_time_in_millisecs());
+      if (r.is_event()) {
+        j.boolean("prompt", r.event().is_prompt());
+        DetectionPositionPair<> dp;
+        dynamic_cast<const CListEventCylindricalScannerWithDiscreteDetectors&>(r.event()).get_detection_position(dp);
+        j.num("d1", dp.pos1().tangential_coord()).num("r1", dp.pos1().axial_coord()).num("d2", dp.pos2().tangential_coord()).num("r2", dp.pos2().axial_coord()).num("t", dp.timing_pos());
+        Bin b;
+        b.set_bin_value(1.F);
+        r.event().get_bin(b, *templ);
+        const bool ok = b.get_bin_value() > 0;
+        j.boolean("ok", ok).num("seg", ok ? b.segment_num() : 0).num("ax", ok ? b.axial_pos_num() : 0).num("view", b.view_num()).num("tang", b.tangential_pos_num()).num("tof", b.timing_pos_num());
+      }
+      tr.emit(j);
+    }
   }, &msg);
   vh::Json e("End");
   e.boolean("err", err);
@@ -702,9 +845,11 @@ int main(int argc, char** argv) {
   g_tr = &tr;
   const long runs = atol(argv[3]);
   vh::Rng rng(vh::seed_from_env());
+  if ((mode == "grad" || mode == "gradx") && argc > 5) g_cache_dir = argv[5];
   if (mode == "hist") { if (argc > 6) g_scratch = argv[6]; mode_hist(tr, runs, argc > 4 ? atoi(argv[4]) : 40, argc > 5 ? atoi(argv[5]) : 0, rng); }
   else if (mode == "allbatch") mode_allbatch(tr, runs, argc > 4 ? atoi(argv[4]) : 30, rng);
   else if (mode == "long") mode_long(tr, runs, argc > 4 ? atoi(argv[4]) : 2000, rng);
+  else if (mode == "ecat") for (long i = 0; i < runs; ++i) run_ecat(tr, rng, argc > 4 ? atoi(argv[4]) : 40);
   else if (mode == "gradx") for (long i = 0; i < runs; ++i) run_gradx(tr, rng, argc > 4 ? atoi(argv[4]) : 0);
   else if (mode == "grad") for (long i = 0; i < runs; ++i) run_grad(tr, rng, argc > 4 ? atoi(argv[4]) : 0);
   else return 2;
